@@ -127,6 +127,19 @@ def construct_task(k):
     return task
 
 
+STRICT_ACCEPTED = []
+
+
+def _strict_probe(api):
+    from rv.errors import ControllerValueError
+    try:
+        api.m.Reverb().dry = 257
+        STRICT_ACCEPTED.append("Reverb.dry = 257 inside a change handler")
+        return "accepted"
+    except ControllerValueError:
+        return "refused"
+
+
 def fanout_task(seed):
     def task(yp):
         import rv.api as api
@@ -138,6 +151,10 @@ def fanout_task(seed):
         mc = p.new_module(MultiCtl, mappings=[(0, 32768, 1, 0, 0, 0, 0, 0), (32768, 0, 2, 0, 0, 0, 0, 0)])
         mc >> [amp, flt]
         out = []
+        # the destinations notify the application when they change; the application's handler works on OTHER modules and
+        # is told "no" for an out-of-range value there, as anywhere else
+        amp.on_volume_changed = lambda value, down=False, up=False: out.append(("in-handler", _strict_probe(api)))
+        flt.on_freq_changed = lambda value, down=False, up=False: out.append(("in-handler", _strict_probe(api)))
         for _ in range(10):
             v = rng.randrange(32769)
             yp()
@@ -159,6 +176,8 @@ def mirror_task(seed):
         mm.mappings.values[0] = mm.Mapping((1, 1))
         mm.update_user_defined_controllers()
         out = []
+        mm.on_user_defined_1_changed = lambda value, down=False, up=False: out.append(("in-handler", _strict_probe(api)))
+        amp.on_balance_changed = lambda value, down=False, up=False: out.append(("in-handler", _strict_probe(api)))
         for _ in range(8):
             # (values that are legal for both controllers: which of them the notification reaches is DESIGN decision 12,
             #  not judged - only that it is the same with and without other threads)
@@ -193,6 +212,7 @@ def strict_task(seed):
             try:
                 setattr(m, name, v)
                 out.append((name, "accepted"))
+                STRICT_ACCEPTED.append(f"{type(m).__name__}.{name} = {v}")
             except ControllerValueError:
                 out.append((name, "refused"))
             yp()
@@ -260,4 +280,69 @@ def run_quiet(res, prop, rng, n_schedules):
         def make(sub=sub, state=state):
             sub.setstate(state)
             return quiet_mix(sub)
+        del STRICT_ACCEPTED[:]
         sched.differential(res, prop, random.Random(rng.randrange(2 ** 40)), make, 1, "quiet")
+        res.count("strict_probes_in_threads_and_handlers")
+        if STRICT_ACCEPTED:
+            res.violation(f"{prop}:threads:quiet:out-of-range-accepted", f"nobody is loading anything, yet an out-of-range assignment was accepted while other API calls were under way: "
+                                                                         f"{STRICT_ACCEPTED[:3]}", {"family": "threads", "label": "quiet"})
+            del STRICT_ACCEPTED[:]
+
+
+def free_running_saves(res, prop, seed, shard, tier, n_objs=6, rounds=6):
+    """Free-running threads (the interpreter switches as often as it can, anywhere), each constructing and saving ITS OWN
+    objects; no loads.  Every save gives the bytes the same object gave when the process had one thread."""
+    import sys
+    import threading
+    import rv.api as api
+    from rv.modules import MODULE_CLASSES
+    from . import monitors, workload
+    objs = []
+    for i in range(n_objs):
+        try:
+            c = workload.project_case(seed, 930000 + shard * 10 + i, tier)
+            # every project also carries an instrument with samples and envelopes and an embedded project
+            smp = c.obj.new_module(api.m.Sampler)
+            s = smp.Sample()
+            s.data, s.format, s.channels = bytes((i * 7 + j) & 0xFF for j in range(2000 + i)), smp.Format.int16, smp.Channels.stereo
+            smp.samples[i % 8] = s
+            c.obj.new_module(api.m.MetaModule)
+            objs.append(c.obj)
+        except Exception:
+            res.count("threaded_case_unusable")
+    if len(objs) < 2:
+        return
+    classes = [cls for _mt, cls in sorted(MODULE_CLASSES.items()) if cls.__name__ != "Output"]
+    old_purity = monitors.PURITY_ENABLED
+    monitors.PURITY_ENABLED = False          # (the ambient monitor's own bookkeeping is not thread-safe)
+    try:
+        want = [o.read() for o in objs]
+        want_fresh = {cls.__name__: api.Synth(cls()).read() for cls in classes}
+        bad = []
+
+        def work(k):
+            o = objs[k]
+            for r in range(rounds):
+                if o.read() != want[k]:
+                    bad.append(("project", k, r))
+                    return
+                cls = classes[(k * 7 + r * 3) % len(classes)]
+                if api.Synth(cls()).read() != want_fresh[cls.__name__]:
+                    bad.append(("fresh " + cls.__name__, k, r))
+                    return
+        old = sys.getswitchinterval()
+        sys.setswitchinterval(1e-6)
+        try:
+            ts = [threading.Thread(target=work, args=(k,)) for k in range(len(objs))]
+            for t in ts:
+                t.start()
+            for t in ts:
+                t.join()
+        finally:
+            sys.setswitchinterval(old)
+    finally:
+        monitors.PURITY_ENABLED = old_purity
+    res.count("threaded_save_rounds", len(objs) * rounds)
+    if bad:
+        res.violation(f"{prop}:threads:free-running-saves", f"{len(objs)} threads each saving their own objects: {bad[0][0]} of thread {bad[0][1]} gave different bytes in round {bad[0][2]} "
+                                                            f"than it gave single-threaded", {"family": "threaded-saves", "threads": len(objs)})
